@@ -56,5 +56,9 @@ func VerifHarness_C19_CanonicalArbitraryNeverCrash() {
 	s := verifrt.NondetString("s", verifrt.Bound(3, 6))
 	ident, err := IdentityFromReference(&dtpb.Canonical{Value: s})
 	verifrt.Assert((err == nil) == (ident != nil), "either-a-result-or-an-error")
+	if err == nil && ident != nil {
+		// nothing of an accepted string is dropped: its parts reassemble to the string itself
+		verifrt.Assert(ident.String() == s, "accepted-canonical-reassembles-to-the-input")
+	}
 	verifrt.Reach("end")
 }
